@@ -1,7 +1,7 @@
 (* Executable comparison functions of the C04 correspondence check. *)
 From Coq Require Import List NArith ZArith Bool Arith.
 Import ListNotations.
-From NV Require Import Gen.S256Consts Gen.SearchConsts S256.S256 S256.S256Check Search.Search Search.SearchCheck Search.Merge.
+From NV Require Import Gen.S256Consts Gen.SearchConsts S256.S256 S256.S256Check Search.Search Search.SearchCheck Search.Merge Search.MergeLoop Search.MergeLoopProofs.
 Local Open Scope N_scope.
 
 Record ccase := CCase {
@@ -34,3 +34,50 @@ Definition merge_ref_ok (c : mcase) : bool :=
 Definition cursor_model_mismatches := mism_from cursor_model_ok 0.
 Definition cursor_ref_mismatches := mism_from cursor_ref_ok 0.
 Definition merge_ref_mismatches := mism_from merge_ref_ok 0.
+
+(* ---------- the k-way merge loop: model = implementation, implementation = reference ---------- *)
+
+Definition tbl (t : list (bytes * bytes)) (k : bytes) : option bytes :=
+  match find (fun p => bytes_eqb (fst p) k) t with Some p => Some (snd p) | None => None end.
+
+Record lcase := LCase {
+  lc_lim : nat; lc_attr : bytes; lc_int : bool;
+  lc_dec : list (bytes * bytes);     (* texts oid.ID / user.ID DecodeString accepts, with their bytes *)
+  lc_cat : list (bytes * bytes);     (* object ID -> stored value of the primary attribute *)
+  lc_pages : bool;                   (* sets = first lim items of lc_fulls, flags = "there is more" *)
+  lc_fulls : list (list ritem);
+  lc_sets : list (list ritem); lc_mores : list bool;
+  lc_obs : option (list ritem * bool)    (* MergeSearchResults: None = error *)
+}.
+
+Definition ritem_eqb (a b : ritem) : bool := bytes_eqb (r_id a) (r_id b) && bytes_eqb (r_attr a) (r_attr b).
+Definition lres_eqb (a b : option (list ritem * bool)) : bool :=
+  match a, b with
+  | None, None => true
+  | Some (r1, m1), Some (r2, m2) => list_eqb_by ritem_eqb r1 r2 && Bool.eqb m1 m2
+  | _, _ => false
+  end.
+
+Definition loop_model_ok (c : lcase) : bool :=
+  lres_eqb (merge_results (tbl (lc_dec c)) (tbl (lc_dec c)) (lc_lim c) (lc_attr c) (lc_int c) (lc_sets c) (lc_mores c)) (lc_obs c).
+
+(* right-hand side of C04_merge: first lim items of the sorted union of the shards' lists, exact flag *)
+Definition loop_ref_ok (c : lcase) : bool :=
+  if negb (lc_pages c) then true else
+  let rawv := fun x => match tbl (lc_cat c) (r_id x) with Some r => r | None => [] end in
+  let u := union rawv (lc_fulls c) in
+  lres_eqb (lc_obs c) (Some (firstn (lc_lim c) u, Nat.ltb (lc_lim c) (length u))).
+
+Definition loop_model_mismatches := mism_from loop_model_ok 0.
+Definition loop_ref_mismatches := mism_from loop_ref_ok 0.
+
+(* StorageEngine.Search over real shards: per request the sets the shards returned, and what the engine returned *)
+Record ecase := ECase {
+  ec_count : nat; ec_filters : list filter; ec_attrs : list bytes;
+  ec_dec : list (bytes * bytes);
+  ec_sets : list (list ritem); ec_mores : list bool;
+  ec_obs : option (list ritem * bool)    (* items (ID, first attribute), "a cursor was returned" *)
+}.
+Definition engine_model_ok (c : ecase) : bool :=
+  lres_eqb (engine_merge (tbl (ec_dec c)) (tbl (ec_dec c)) (ec_count c) (ec_filters c) (ec_attrs c) (ec_sets c) (ec_mores c)) (ec_obs c).
+Definition engine_model_mismatches := mism_from engine_model_ok 0.
